@@ -124,6 +124,51 @@ def limit(sid, nx):
     return s.done()
 
 
+def after_reset(sid, with_internal):
+    """identifiers do not survive a reset: after a timeout reset and the re-registration of everybody, calls that carry an
+    identifier of the previous generation are refused (403, unknown identifier) and change nothing - the invocation in
+    flight is not released early, no fault is recorded"""
+    subs = {"e1": ["INVOKE"]}
+    ints = {"i1": ["INVOKE"]} if with_internal else {}
+    s = Scn(sid, ext=["e1"], timeout_ms=400, opWaitMs=6000)
+    s.meta(family="extapi", kind="after-reset", internal=with_internal)
+    tags = s.boot(subs, ints)
+    s.round(tags, subs, ints)
+    it = s.invoke(size=3, seed=5)
+    s.wait(tags["rt"])
+    for w in list(tags):
+        if w != "rt":
+            s.wait(tags[w])
+    s.wait(it)                          # nobody answers: timeout, reset
+    m = s.mark()
+    it = s.invoke(size=4, seed=6)
+    s.await_exec(base="e1", since=m)
+    s.register("ext:e1", subs["e1"])
+    s.await_exec(kind="rt", since=m)
+    for n, evs in ints.items():
+        s.register("int:" + n, evs)
+    tags = {"ext:e1": s.poll("ext:e1")}
+    for n in ints:
+        tags["int:" + n] = s.poll("int:" + n)
+    tags["rt"] = s.call("rt", "next", async_=True)
+    s.wait(tags["rt"])
+    for w in list(tags):
+        if w != "rt":
+            s.wait(tags[w])
+    # the invocation is in flight (the extensions are busy with its event): calls with the old identifiers
+    s.call("ext:e1", "next", id="old")
+    s.call("ext:e1", "exterror", which="exit", id="old", errType="Extension.Stale")
+    s.call("ext:e1", "exterror", which="init", id="old", errType="Extension.Stale")
+    for n in ints:
+        s.call("int:" + n, "next", id="old")
+    s.call("rt", "response", id="current", body="after-reset")
+    for w in ["rt"] + [w for w in tags if w != "rt"]:
+        tags[w] = s.poll(w)
+    s.wait(it)
+    s.round(tags, subs, ints)
+    return s.done()
+
+
 def scenarios(ctx):
     rnd = random.Random(ctx.seed * 104729 + 13)
     n = 60 if ctx.quick else 600
@@ -133,6 +178,8 @@ def scenarios(ctx):
         out.append(live("c13-live%03d" % i, rnd, 1 + i % 2))
     for nx in (0, 1, 5, 9, 10):
         out.append(limit("c13-limit%d" % nx, nx))
+    out.append(after_reset("c13-ar1", False))
+    out.append(after_reset("c13-ar2", True))
     return out
 
 
